@@ -710,7 +710,9 @@ func c25E2EQuery(seq uint64, timeout time.Duration, ack, respond bool, delayUs i
 
 func c25Gen(rng *rand.Rand, tier string) []Case {
 	var out []Case
-	filters := []string{"*", "", "user", "user:a", "user:a,user:b", "query", "query:q1", "member-join", "member-join,member-leave,user:b", "user:zz", "member-update,query:q1,user"}
+	filters := []string{"*", "", "user", "user:a", "user:a,user:b", "query", "query:q1", "member-join", "member-join,member-leave,user:b", "user:zz", "member-update,query:q1,user",
+		// overlapping filters: an event matching several of them is still streamed once
+		"user,user:a", "*,member-join", "*,*", "user:a,user:a", "query,query:q1,*", "user:a,user,user:b,*", "member-join,member-join,user:b,user"}
 	kinds := []string{"user", "user", "user", "query", "member-join", "member-leave", "member-failed", "member-update", "member-reap"}
 	names := []string{"a", "b", "q1", "zz", "deploy"}
 	nUnit, nOver, nQ, nE2E, nE2EQ := 120, 2, 60, 25, 30
@@ -809,7 +811,9 @@ func c25Gen(rng *rand.Rand, tier string) []Case {
 	e2eNames := []string{"a", "b", "A", "Deploy-EU", "deploy-eu", "DEPLOY-EU", "zz", "Uptime", "uptime"}
 	e2eFilters := []string{"user", "user:a", "user:a,user:b", "*", "user:zz", "query,user:b", "member-join,user:Deploy-EU",
 		"user:Deploy-EU", "user:deploy-eu", "user:DEPLOY-EU,user:A", "query:Uptime", "query:uptime,user:A", "query:Uptime,user:Deploy-EU",
-		" user:a", "user:a ", " user", "user:Deploy-EU ", "User:a", "USER", "query:Uptime ", "Query:uptime"}
+		" user:a", "user:a ", " user", "user:Deploy-EU ", "User:a", "USER", "query:Uptime ", "Query:uptime",
+		// overlapping filters (the end marker's own filter `user:fin` overlaps with `user` and `*` as well)
+		"user,user:Deploy-EU", "*,member-join", "user:a,user:a,user", "query,query:Uptime,*", "*,*"}
 	for i := 0; i < nE2E; i++ {
 		fl := e2eFilters[rng.Intn(len(e2eFilters))]
 		if i < len(e2eFilters) {
